@@ -37,7 +37,22 @@ def run(ctx):
     npr, ln = (5, 12) if ctx.quick() else (60, 22)
     singles = stages.gen_seqs(ctx, npr, ln, tag="crash")
     pairs = merge_pairs(ctx, stages.gen_seqs(ctx, max(2, npr // 2), ln, roles=["initPush", "respPush"], tag="crashp"))
-    cases = singles + pairs
+    # codec boundary inputs: the same histories with one error-carrying event whose text is long (around and beyond the 8 KiB string
+    # limit of the record codec): whatever the engine does with it, every write boundary must still reopen to a state that was current
+    longs = []
+    for c in singles[::3]:
+        c2 = copy.deepcopy(c)
+        c2["case"] += "+long"
+        for ch in c2["chans"]:
+            ch["ident"]["tid"] += 500000
+        steps = [s for s in c2["steps"] if s["op"] != "reopen"]
+        pos = ctx.rng.randrange(len(steps) // 2, len(steps) + 1)
+        op = ctx.rng.choice(["Error", "Disconnected", "SendDataError", "ReceiveDataError", "RequestCancelled"])
+        args = dict(steps[0]["args"], err="@long:%d" % ctx.rng.choice([8000, 8193, 9000, 20000, 66000]))
+        steps.insert(pos, {"c": steps[0]["c"], "op": op, "args": args})
+        c2["steps"] = steps
+        longs.append(c2)
+    cases = singles + pairs + longs
     cp = ctx.path("crashcases.ndjson")
     vlib.write_ndjson(cp, cases)
     b = ctx.go_bin("chanx")
